@@ -1,7 +1,8 @@
 /* C20 harness: format limits.  Runs histories of limit-probing operations against the freshly built library.
  * usage: drive_limits <workdir> <history-file>
  * A history file holds several histories separated by lines "history <name>"; every history runs in its own child
- * process with fresh files.  One output line per input line: "<lineno> ok v1 v2 .." or "<lineno> fail v1 .."
+ * process with fresh files and a watchdog (DRIVE_LIMITS_TIMEOUT seconds, default 60: "<lineno> hang"; after two hangs the
+ * remaining histories are reported "<lineno> notrun").  One output line per input line: "<lineno> ok v1 v2 .." or "<lineno> fail v1 .."
  * (values after "fail" are the state observables that must be unchanged).
  *
  * H level (one HDF file):
@@ -112,6 +113,20 @@ static void cleanup(void)
     sprintf(p, "%s/craft2.hdf", wd); unlink(p);
 }
 
+/* watchdog: the property says the library stays usable, so a call that does not return is a violation.  Every
+ * history (child process) gets DRIVE_LIMITS_TIMEOUT seconds (default 60); on expiry the child reports the line it is
+ * stuck on and exits with code 124. */
+#include <signal.h>
+static volatile long cur_lineno;
+static void on_alarm(int sig)
+{
+    char b[64];
+    int  n = snprintf(b, sizeof b, "\n%ld hang\n", (long)cur_lineno);
+    (void)sig;
+    if (n > 0) { ssize_t w = write(1, b, (size_t)n); (void)w; }
+    _exit(124);
+}
+
 static void run_history(char **lines, long *lnos, long n)
 {
     for (int i = 0; i < NV; i++) vg[i] = vs[i] = FAIL;
@@ -124,6 +139,7 @@ static void run_history(char **lines, long *lnos, long n)
         char sarg[4096] = "";
         const char *L = lines[li];
         sscanf(L, "%63s", op);
+        cur_lineno = lnos[li];
         printf("%ld ", lnos[li]);
         if (!strcmp(op, "history")) { printf("history\n"); continue; }
         if (!strcmp(op, "hopen")) {
@@ -551,15 +567,32 @@ int main(int argc, char **argv)
     }
     fclose(f);
     long i = 0;
+    int  tmo = getenv("DRIVE_LIMITS_TIMEOUT") ? atoi(getenv("DRIVE_LIMITS_TIMEOUT")) : 60;
+    int  hangs = 0;
+    if (tmo < 1) tmo = 60;
     while (i < n) {
         long j = i + 1;
         while (j < n && strncmp(lines[j], "history", 7) != 0) j++;
         fflush(stdout);
+        if (hangs >= 2) { /* do not let a library that hangs on every history block the run: the rest is not run */
+            printf("%ld notrun\n", lnos[i]);
+            i = j;
+            continue;
+        }
         pid_t pid = fork();
-        if (pid == 0) { run_history(lines + i, lnos + i, j - i); fflush(stdout); _exit(0); }
+        if (pid == 0) {
+            setvbuf(stdout, NULL, _IOLBF, 0);   /* every finished line is out before anything can hang or crash */
+            signal(SIGALRM, on_alarm);
+            alarm((unsigned)tmo);
+            run_history(lines + i, lnos + i, j - i);
+            alarm(0);
+            fflush(stdout);
+            _exit(0);
+        }
         int st = 0;
         waitpid(pid, &st, 0);
-        if (!(WIFEXITED(st) && WEXITSTATUS(st) == 0)) {
+        if (WIFEXITED(st) && WEXITSTATUS(st) == 124) { hangs++; cleanup(); }
+        else if (!(WIFEXITED(st) && WEXITSTATUS(st) == 0)) {
             int code = WIFEXITED(st) ? WEXITSTATUS(st) : 128 + WTERMSIG(st);
             printf("\n%ld crash %d\n", lnos[j - 1], code);
             cleanup();
